@@ -179,6 +179,10 @@ impl Property for C16Prop {
             return Some(json!({"kind": "mix", "op": op, "k": k, "inc": 1 + tape.below(4), "ident": 1 + tape.below(4),
                                "readers": tape.below(4), "iters": 200 + tape.below(tier.of(1500, 6000)), "reps": tier.of(2, 6)}));
         }
+        if tape.chance(1, 6) {
+            return Some(json!({"kind": "append", "cell": *tape.pick(&["array", "string", "float", "nested"]), "threads": threads,
+                               "iters": 50 + tape.below(tier.of(600, 3000)), "reps": tier.of(3, 10)}));
+        }
         Some(match tape.weighted(&[3, 2, 3, 2]) {
             0 => {
                 let (op, x0, k, max_steps) = *tape.pick(&[
@@ -232,9 +236,83 @@ impl Property for C16Prop {
             "history" => check_history(case, stats),
             "isolated" => check_isolated(case, stats),
             "mix" => check_mix(case, stats),
+            "append" => check_append(case, stats),
             _ => Verdict::Discard("unknown kind"),
         }
     }
+}
+
+/// `+=` on cells that do not hold an int: T threads x M appends of distinct tokens to one shared
+/// array / string cell (or additions of 1.0 to a float cell): the lengths returned by the
+/// assignments are exactly 1..=TM, each once, and the final content holds every token exactly once
+fn check_append(case: &Json, stats: &mut Stats) -> Verdict {
+    let kind = case["cell"].as_str().unwrap_or("array");
+    let threads = case["threads"].as_u64().unwrap_or(4) as usize;
+    let iters = case["iters"].as_u64().unwrap_or(100) as usize;
+    let reps = case["reps"].as_u64().unwrap_or(1) as usize;
+    let text = match kind {
+        "array" => "c := mut [int] []; f := (k: int) -> int { return std.len(c += [k]); }; (c, f)",
+        "nested" => "c := mut [[int]|string] []; f := (k: int) -> int { return std.len(c += [[k], \"s\"]) / 2; }; (c, f)",
+        "string" => "c := mut string \"\"; f := (k: int) -> int { return std.len(std.string.split(c += (std.convert.to_string(k) + \",\"), \",\")) - 1; }; (c, f)",
+        _ => "c := mut float 0.0; f := (k: int) -> int { return std.convert.to_int(c += 1.0); }; (c, f)",
+    };
+    let plans: Vec<Vec<i64>> = (0..threads).map(|t| (0..iters).map(|i| (t * iters + i) as i64).collect()).collect();
+    let total = threads * iters;
+    for rep in 0..reps {
+        let shared = match run::run_text(text, true) {
+            Outcome::Value(Variable::Tuple(parts)) if parts.len() == 2 => match (&parts[0], &parts[1]) {
+                (cell @ Variable::Mut(_), Variable::Function(f)) => Shared { cell: cell.clone(), update: f.clone() },
+                _ => return fail("C16:setup", format!("`{text}` did not yield (cell, function)")),
+            },
+            o => return fail("C16:setup", format!("`{text}`: {}", o.short())),
+        };
+        let logs = race(&shared.update, &plans);
+        stats.evals(total as u64);
+        if overlapped(&logs) {
+            stats.nontrivial(&format!("{case}#{rep}"));
+            stats.label(&format!("append {kind}: threads overlapped"));
+        }
+        if let Some(bad) = first_bad(&logs) {
+            return fail(format!("C16:append:{kind}:abnormal"), format!("workload {case}: {bad}"));
+        }
+        // the sizes seen by the appending threads: 1..=total, each exactly once
+        let mut seen = vec![0u32; total + 1];
+        for l in &logs {
+            for r in &l.rets {
+                match r {
+                    Ret::Int(n) if (1..=total as i64).contains(n) => seen[*n as usize] += 1,
+                    other => return fail(format!("C16:append:{kind}:returned"), format!("workload {case}: an append returned {other:?}, outside 1..={total}")),
+                }
+            }
+        }
+        if let Some(n) = (1..=total).find(|n| seen[*n] != 1) {
+            return fail(
+                format!("C16:append:{kind}:lost-or-duplicated"),
+                format!("{threads} threads x {iters} `c += ...` on a {kind} cell: size {n} was returned {} times (each size 1..={total} must be seen once)", seen[n]),
+            );
+        }
+        // the final content holds every token exactly once
+        let tokens: Option<Vec<i64>> = match content(&shared.cell) {
+            Ok(Variable::Array(a)) if kind == "array" => a.iter().map(|v| if let Variable::Int(i) = v { Some(*i) } else { None }).collect(),
+            Ok(Variable::Array(a)) => a.iter().step_by(2).map(|v| if let Variable::Array(x) = v && let Some(Variable::Int(i)) = x.first() { Some(*i) } else { None }).collect(),
+            Ok(Variable::String(s)) => s.split(',').filter(|t| !t.is_empty()).map(|t| t.parse().ok()).collect(),
+            Ok(Variable::Float(f)) => Some((0..f as i64).collect()),
+            Ok(_) => None,
+            Err(e) => return fail(format!("C16:append:{kind}:poisoned"), e),
+        };
+        let Some(mut tokens) = tokens else {
+            return fail(format!("C16:append:{kind}:final"), format!("workload {case}: the final content is not of the cell's type"));
+        };
+        tokens.sort_unstable();
+        if tokens != (0..total as i64).collect::<Vec<_>>() {
+            return fail(
+                format!("C16:append:{kind}:final"),
+                format!("{threads} threads x {iters} appends to a {kind} cell: the final content holds {} tokens, expected each of 0..{total} once (an update was lost or duplicated)", tokens.len()),
+            );
+        }
+    }
+    stats.sample(2, || json!({"workload": case}));
+    Verdict::Pass
 }
 
 fn check_orbit(case: &Json, stats: &mut Stats) -> Verdict {
@@ -689,6 +767,9 @@ pub fn run(session: &Session) -> i32 {
     for (op, k) in MIX_OPS {
         cases.push(json!({"kind": "mix", "op": op, "k": k, "inc": 3, "ident": 3, "readers": 2, "iters": session.tier.of(1500, 10000), "reps": session.tier.of(2, 8)}));
     }
+    for cell in ["array", "string", "float", "nested"] {
+        cases.push(json!({"kind": "append", "cell": cell, "threads": 8, "iters": session.tier.of(1000, 5000), "reps": session.tier.of(3, 12)}));
+    }
     for which in 0..ISOLATED.len() {
         cases.push(json!({"kind": "isolated", "threads": 16, "n": 20, "which": which, "reps": session.tier.of(8, 40)}));
     }
@@ -716,7 +797,7 @@ pub fn run(session: &Session) -> i32 {
         }
     }
     session.finish(
-        "workloads on real threads released by a barrier and repeated: (orbit) T threads x M identical updates `c op= k` through one shared function value for updates with an injective orbit (+= -= *= <<= >>= /= **= ^=): the multiset of values returned by the assignments must be exactly {f(x0)..f^(TM)(x0)} and the final content f^(TM)(x0); (bits) every single update owns one bit (|= &= ^=): each returned value shows the caller's own update and the final content shows all; (history) 3 threads x 1-3 operations over all 12 assignment operators incl. failing ones, brute-force linearizability of returned values + final content against the i128 model; (mix) incrementing threads + threads applying an identity update of each other operator family (/= 1, **= 1, <<= 0, >>= 0, %= MAX, *= 1, -= 0, |= 0, &= -1) + reading threads on one cell: no increment lost, every increment returns a distinct value, reads/identity updates see a non-decreasing value in range; (isolated) 16 threads executing the same Code objects (loops, closures, recursion, iterator helpers @ ? ~ $] $+ $* $|| $& \\ ? T) must each get the sequential result. Workload shapes are drawn from VERIF_SEED; interleavings are whatever the scheduler produces. Non-trivial = a repetition in which at least two threads' execution intervals overlapped; distinct by workload and repetition.",
+        "workloads on real threads released by a barrier and repeated: (orbit) T threads x M identical updates `c op= k` through one shared function value for updates with an injective orbit (+= -= *= <<= >>= /= **= ^=): the multiset of values returned by the assignments must be exactly {f(x0)..f^(TM)(x0)} and the final content f^(TM)(x0); (bits) every single update owns one bit (|= &= ^=): each returned value shows the caller's own update and the final content shows all; (history) 3 threads x 1-3 operations over all 12 assignment operators incl. failing ones, brute-force linearizability of returned values + final content against the i128 model; (mix) incrementing threads + threads applying an identity update of each other operator family (/= 1, **= 1, <<= 0, >>= 0, %= MAX, *= 1, -= 0, |= 0, &= -1) + reading threads on one cell: no increment lost, every increment returns a distinct value, reads/identity updates see a non-decreasing value in range; (append) T threads x M `c += [k]` / `c += \"k,\"` / `c += 1.0` on one shared array, string, float or nested-array cell: the sizes returned by the assignments are exactly 1..TM, each once, and the final content holds every token exactly once; (isolated) 16 threads executing the same Code objects (loops, closures, recursion, iterator helpers @ ? ~ $] $+ $* $|| $& \\ ? T) must each get the sequential result. Workload shapes are drawn from VERIF_SEED; interleavings are whatever the scheduler produces. Non-trivial = a repetition in which at least two threads' execution intervals overlapped; distinct by workload and repetition.",
         false,
         &["schedules are sampled, not enumerated: a race that needs one specific interleaving can be missed; a deadlock ends in the watchdog (exit 2), not in a violation",
           "overlap is measured by wall-clock intervals of the worker threads"],
